@@ -8,6 +8,8 @@
      gen_sound_all     RepInv g -> In m (pseudo_moves_all g) -> pseudo_legal (abs g) (abs_move m) = true
      gen_sound         the same with the (unused) premises KingsInv / king_exists, as asked
      gen_sound_pseudo, gen_sound_checked, gen_sound_get_moves
+     king_capture_targeted / king_not_capturable   a generated king capture happens on the cached,
+                       attacked king square of the side not to move
 
    Structure:
      1. small tools (squares, [attacks] per kind, the forward version of the ray geometry)
@@ -329,3 +331,348 @@ Corollary capture_targets_promotion : forall g o k s e c,
   RepInv g -> In (Promotion o k s e (Some c)) (pseudo_moves_all g) ->
   board_targeted (g_board g) e (po c) = true.
 Proof. intros g o k s e c HR Hin. apply (capture_targets g _ HR Hin s e c). right. now exists o, k. Qed.
+
+(* ---- 5. pseudo-legality ------------------------------------------------------------------------------ *)
+
+(* the per-kind clause of [pseudo_legal], named so that it can be established separately *)
+Definition piece_rule (p : position) (m : smove) (pc : piece) : bool :=
+  let c := p_turn p in
+  let b := p_board p in
+  let a := m_from m in
+  let t := m_to m in
+  match pk pc with
+  | Pawn =>
+      let dr := fst t - fst a in
+      let dc := snd t - snd a in
+      (if fst t =? promo_rank c then promo_ok (m_promo m)
+       else match m_promo m with None => true | Some _ => false end)
+      && (   ((dc =? 0) && (dr =? pawn_dir c) && empty b t)
+          || ((dc =? 0) && (dr =? 2 * pawn_dir c) && (fst a =? pawn_start c)
+              && empty b (fst a + pawn_dir c, snd a) && empty b t)
+          || ((Z.abs dc =? 1) && (dr =? pawn_dir c) && negb (empty b t))
+          || is_en_passant p m)
+  | King =>
+      match m_promo m with Some _ => false | None =>
+        attacks b a t
+        || match is_castling p m with Some side => castling_ok p side | None => false end
+      end
+  | _ => match m_promo m with Some _ => false | None => attacks b a t end
+  end.
+
+Lemma pseudo_legal_unfold p m :
+  pseudo_legal p m =
+  on_board (m_from m) && on_board (m_to m) &&
+  match at_ (p_board p) (m_from m) with
+  | None => false
+  | Some pc =>
+      color_eqb (po pc) (p_turn p)
+      && match color_at (p_board p) (m_to m) with
+         | Some c' => negb (color_eqb c' (p_turn p))
+         | None => true
+         end
+      && piece_rule p m pc
+  end.
+Proof. reflexivity. Qed.
+
+Lemma pseudo_legal_intro g s e pr pc :
+  valid s -> valid e -> gget g s = Some pc -> po pc = g_player g ->
+  (forall c, gget g e = Some c -> po c <> g_player g) ->
+  piece_rule (abs g) (mkSMove s e pr) pc = true ->
+  pseudo_legal (abs g) (mkSMove s e pr) = true.
+Proof.
+  intros Hs He Hg Ho Hcap Hrule. rewrite pseudo_legal_unfold.
+  change (m_from (mkSMove s e pr)) with s. change (m_to (mkSMove s e pr)) with e.
+  change (p_board (abs g)) with (g_board g). change (p_turn (abs g)) with (g_player g).
+  rewrite (proj2 (on_board_valid s) Hs), (proj2 (on_board_valid e) He), at_gget, Hg, Hrule, Ho,
+    color_eqb_refl.
+  unfold color_at. rewrite at_gget. destruct (gget g e) as [c|] eqn:Ee; [|reflexivity].
+  specialize (Hcap c eq_refl). revert Hcap. destruct (po c), (g_player g); cbn; congruence.
+Qed.
+
+Lemma officer_rule p m pc :
+  pk pc <> Pawn -> m_promo m = None -> attacks (p_board p) (m_from m) (m_to m) = true ->
+  piece_rule p m pc = true.
+Proof.
+  intros Hk Hp Ha. unfold piece_rule. rewrite Hp, Ha. destruct (pk pc); try reflexivity. congruence.
+Qed.
+
+Lemma pawn_rule g s e pr pc :
+  pk pc = Pawn ->
+  ((fst e = promo_rank (g_player g) /\ exists k, pr = Some k /\ promo_kind k)
+   \/ (fst e <> promo_rank (g_player g) /\ pr = None)) ->
+  ((e = (fst s + pawn_dir (g_player g), snd s) /\ gget g e = None)
+   \/ (e = (fst s + 2 * pawn_dir (g_player g), snd s) /\ fst s = pawn_start (g_player g)
+       /\ gget g (fst s + pawn_dir (g_player g), snd s) = None /\ gget g e = None)
+   \/ (fst e = fst s + pawn_dir (g_player g) /\ Z.abs (snd e - snd s) = 1 /\ gget g e <> None)) ->
+  piece_rule (abs g) (mkSMove s e pr) pc = true.
+Proof.
+  intros Hk Hpromo Hmove. unfold piece_rule. rewrite Hk.
+  cbn [abs p_turn p_board m_from m_to m_promo].
+  apply andb_true_iff. split.
+  - destruct Hpromo as [(E & k & -> & Hpk) | (E & ->)].
+    + apply Z.eqb_eq in E. rewrite E. destruct Hpk as [-> | [-> | [-> | ->]]]; reflexivity.
+    + apply Z.eqb_neq in E. rewrite E. reflexivity.
+  - destruct Hmove as [(-> & He) | [(-> & Hrow & Hmid & He) | (Hr & Hc & He)]].
+    + rewrite (empty_at _ _ He). cbn [fst snd].
+      replace (snd s - snd s =? 0) with true by lia.
+      replace (fst s + pawn_dir (g_player g) - fst s =? pawn_dir (g_player g)) with true by lia.
+      reflexivity.
+    + rewrite (empty_at _ _ He). cbn [fst snd]. rewrite (empty_at _ _ Hmid).
+      replace (snd s - snd s =? 0) with true by lia.
+      replace (fst s + 2 * pawn_dir (g_player g) - fst s =? 2 * pawn_dir (g_player g)) with true by lia.
+      replace (fst s =? pawn_start (g_player g)) with true by lia.
+      cbn [andb]. apply orb_true_iff. left. apply orb_true_iff. left. apply orb_true_r.
+    + assert (Hne : empty (g_board g) e = false).
+      { unfold empty. rewrite at_gget. destruct (gget g e); [reflexivity | contradiction]. }
+      rewrite Hne.
+      replace (Z.abs (snd e - snd s) =? 1) with true by lia.
+      replace (fst e - fst s =? pawn_dir (g_player g)) with true by lia.
+      cbn [andb negb]. apply orb_true_iff. left. apply orb_true_r.
+Qed.
+
+(* en passant *)
+Lemma ep_sound g o sc ec :
+  gen_ok g (EnPassant o sc ec) -> pseudo_legal (abs g) (abs_move (EnPassant o sc ec)) = true.
+Proof.
+  cbn [gen_ok abs_move]. intros (-> & Hsc & Hec & Habs & Hep & Hp1 & Hp2 & Hp3).
+  destruct (pawn_consts (g_player g)) as (_ & _ & _ & C4 & C5 & _ & C7).
+  assert (Hrow : 0 <= fst (ep_rows (g_player g)) < 8 /\ 0 <= snd (ep_rows (g_player g)) < 8)
+    by (destruct (g_player g); cbn; lia).
+  apply (pseudo_legal_intro g _ _ None (mkPiece Pawn (g_player g))).
+  - split; cbn [fst snd]; lia.
+  - split; cbn [fst snd]; lia.
+  - exact Hp1.
+  - reflexivity.
+  - intros c E. unfold gget in E. rewrite Hp3 in E. discriminate.
+  - assert (Hepm : is_en_passant (abs g)
+                     (mkSMove (fst (ep_rows (g_player g)), sc) (snd (ep_rows (g_player g)), ec) None) = true).
+    { unfold is_en_passant. cbn [abs p_turn p_board p_ep m_from m_to fst snd].
+      rewrite (has_at _ _ _ _ Hp1), (empty_at _ _ Hp3), (has_at _ _ _ _ Hp2).
+      unfold abs_ep. rewrite Hep. replace (ec <? 8) with true by lia.
+      rewrite C4, C5, !Z.eqb_refl. replace (Z.abs (ec - sc) =? 1) with true by lia. reflexivity. }
+    unfold piece_rule. cbn [pk]. rewrite Hepm.
+    cbn [abs p_turn m_to m_promo fst snd].
+    replace (snd (ep_rows (g_player g)) =? promo_rank (g_player g)) with false by lia.
+    rewrite orb_true_r. reflexivity.
+Qed.
+
+Lemma arrive_promo g self p np cap m :
+  pawn_arrive g self p np cap m ->
+  exists pr, abs_move m = mkSMove p np pr
+    /\ ((fst np = promo_rank (po self) /\ exists k, pr = Some k /\ promo_kind k)
+        \/ (fst np <> promo_rank (po self) /\ pr = None)).
+Proof.
+  destruct (pawn_consts (po self)) as (_ & _ & C3 & _). rewrite <- C3.
+  intros [(Hl & k & Hpk & ->) | (Hl & ->)]; cbn [abs_move].
+  - exists (Some k). split; [reflexivity|]. left. split; [now symmetry|]. now exists k.
+  - exists None. split; [reflexivity|]. right. split; [|reflexivity]. intros E. apply Hl. now symmetry.
+Qed.
+
+Lemma pawn_sound g self p m :
+  RuleInv g -> src_ok g self p -> pk self = Pawn -> In m (pawn_moves g self p) ->
+  pseudo_legal (abs g) (abs_move m) = true.
+Proof.
+  intros HR Hsrc Hk Hin. pose proof Hsrc as (Hvp & Hs & Ho).
+  pose proof (pawn_moves_ok g self p m HR Hsrc Hk Hin) as Hok.
+  apply pawn_moves_inv in Hin.
+  unfold double_shape, single_shape, capture_shape, ep_shape in Hin.
+  pose proof (pawn_geom (po self)) as (G1 & G2 & G3 & G4 & G5 & G6 & G7 & G8).
+  destruct (pawn_consts (po self)) as (C1 & C2 & C3 & _).
+  rewrite G3, C1, C2, C3 in *. cbn [fst snd] in *. rewrite Ho in *.
+  destruct Hin as [H|[H|[H|H]]].
+  - (* double push *)
+    destruct H as (-> & Hrow & Hmid & Hend). cbn [abs_move].
+    rewrite add_unsafe_eq in Hmid, Hend |- *.
+    cbn [fst snd] in *. replace (snd p + 0) with (snd p) in * by lia.
+    apply (pseudo_legal_intro g _ _ None self); try assumption.
+    + destruct Hvp as [Hr Hc]. split; cbn [fst snd]; lia.
+    + intros c E. rewrite Hend in E. discriminate.
+    + apply pawn_rule; [exact Hk | |].
+      * right. split; [cbn [fst snd]; lia | reflexivity].
+      * right; left. now repeat split.
+  - (* single push *)
+    destruct H as (np & Ea & Hn & Harr). apply GenOk.add_some in Ea. destruct Ea as [Enp Hv].
+    cbn [fst snd] in Enp. replace (snd p + 0) with (snd p) in Enp by lia.
+    apply arrive_promo in Harr. destruct Harr as (pr & -> & Hpr). rewrite Ho in Hpr.
+    apply (pseudo_legal_intro g _ _ pr self); try assumption.
+    + intros c E. rewrite Hn in E. discriminate.
+    + apply pawn_rule; [exact Hk | exact Hpr |]. left. now split.
+  - (* captures *)
+    destruct H as (d & np & pc & Hd & Ea & Hg & Hpc & Harr).
+    apply GenOk.add_some in Ea. destruct Ea as [Enp Hv].
+    apply side_delta in Hd. destruct Hd as [Hd1 Hd2]. rewrite C1 in Hd1. cbn [fst] in Hd1.
+    apply arrive_promo in Harr. destruct Harr as (pr & -> & Hpr). rewrite Ho in Hpr.
+    apply (pseudo_legal_intro g _ _ pr self); try assumption.
+    + intros c E. rewrite Hg in E. inversion E; subst c. exact Hpc.
+    + apply pawn_rule; [exact Hk | exact Hpr |]. right; right.
+      rewrite Hg, Enp. cbn [fst snd]. split; [lia|]. split; [lia | discriminate].
+  - (* en passant *)
+    destruct H as (-> & _). now apply ep_sound.
+Qed.
+
+(* castling *)
+Lemma right_of_k g c : right_of (abs_rights (gstate_of g)) c true = right_k g c.
+Proof. destruct c; reflexivity. Qed.
+Lemma right_of_q g c : right_of (abs_rights (gstate_of g)) c false = right_q g c.
+Proof. destruct c; reflexivity. Qed.
+
+Lemma valid_home_row c f : 0 <= f < 8 -> valid (home_row c, f).
+Proof. intros H. destruct c; split; cbn [fst snd home_row]; lia. Qed.
+
+Lemma castling_sound g m :
+  RuleInv g -> king_exists g (g_player g) = true -> In m (castling_moves g) ->
+  pseudo_legal (abs g) (abs_move m) = true.
+Proof.
+  intros HR Hke Hin.
+  pose proof (castling_moves_ok g m HR Hke Hin) as Hok.
+  apply castling_moves_inv in Hin. cbv zeta in Hin.
+  destruct (pawn_consts (g_player g)) as (_ & _ & _ & _ & _ & C6 & _).
+  destruct Hin as [(-> & Hr & _ & _ & T4 & T5 & T6) | (-> & Hr & _ & _ & _ & T4 & T2 & T3)];
+    cbn [gen_ok abs_move] in *.
+  - destruct Hok as (_ & _ & HK & HRk & H5 & H6).
+    apply (pseudo_legal_intro g _ _ None (mkPiece King (g_player g))).
+    + apply valid_home_row; lia.
+    + apply valid_home_row; lia.
+    + exact HK.
+    + reflexivity.
+    + intros x E. unfold gget in E. rewrite H6 in E. discriminate.
+    + assert (Hic : is_castling (abs g) (mkSMove (home_row (g_player g), 4) (home_row (g_player g), 6) None)
+                    = Some true).
+      { unfold is_castling. cbn [abs p_turn p_board m_from m_to]. rewrite <- C6.
+        rewrite (has_at _ _ _ _ HK), !pos_eqb_refl. reflexivity. }
+      assert (Hco : castling_ok (abs g) true = true).
+      { unfold castling_ok. cbn [abs p_turn p_board p_rights]. rewrite <- C6.
+        rewrite (has_at _ _ _ _ HK), (has_at _ _ _ _ HRk), (empty_at _ _ H5), (empty_at _ _ H6).
+        rewrite <- !is_targeted_is_attacked by (apply valid_home_row; lia).
+        rewrite T4, T5, T6, right_of_k, Hr. reflexivity. }
+      unfold piece_rule. cbn [pk m_promo]. rewrite Hic, Hco. apply orb_true_r.
+  - destruct Hok as (_ & _ & HK & HRk & H1 & H2 & H3).
+    apply (pseudo_legal_intro g _ _ None (mkPiece King (g_player g))).
+    + apply valid_home_row; lia.
+    + apply valid_home_row; lia.
+    + exact HK.
+    + reflexivity.
+    + intros x E. unfold gget in E. rewrite H2 in E. discriminate.
+    + assert (Hic : is_castling (abs g) (mkSMove (home_row (g_player g), 4) (home_row (g_player g), 2) None)
+                    = Some false).
+      { unfold is_castling. cbn [abs p_turn p_board m_from m_to]. rewrite <- C6.
+        rewrite (has_at _ _ _ _ HK), !pos_eqb_refl. cbn [andb].
+        replace (pos_eqb (home_row (g_player g), 2) (home_row (g_player g), 6)) with false; [reflexivity|].
+        unfold pos_eqb. cbn [fst snd]. lia. }
+      assert (Hco : castling_ok (abs g) false = true).
+      { unfold castling_ok. cbn [abs p_turn p_board p_rights]. rewrite <- C6.
+        rewrite (has_at _ _ _ _ HK), (has_at _ _ _ _ HRk), (empty_at _ _ H1), (empty_at _ _ H2),
+          (empty_at _ _ H3).
+        rewrite <- !is_targeted_is_attacked by (apply valid_home_row; lia).
+        rewrite T4, T2, T3, right_of_q, Hr. reflexivity. }
+      unfold piece_rule. cbn [pk m_promo]. rewrite Hic, Hco. apply orb_true_r.
+Qed.
+
+(* ---- the generator is sound ---------------------------------------------------------------------------- *)
+
+Lemma piece_moves_sound g self p m :
+  RuleInv g -> src_ok g self p -> In m (piece_moves g self p) ->
+  pseudo_legal (abs g) (abs_move m) = true.
+Proof.
+  intros HR Hsrc Hin. pose proof Hsrc as (Hvp & Hs & Ho).
+  destruct (kind_eqb (pk self) Pawn) eqn:Ek.
+  - apply kind_eqb_eq in Ek. unfold piece_moves in Hin. rewrite Ek in Hin.
+    now apply (pawn_sound g self p m).
+  - assert (Hnp : pk self <> Pawn) by (intros E; rewrite E in Ek; discriminate).
+    pose proof (piece_moves_ok g self p m HR Hsrc Hin) as Hok.
+    destruct (officer_attacks g self p m Hsrc Hnp Hin) as [[Hc HK] | (e & Hve & -> & Hatt)].
+    + destruct (king_src g self p HR Hsrc HK) as [_ Hke]. now apply castling_sound.
+    + cbn [gen_ok abs_move] in *. destruct Hok as (_ & _ & _ & _ & _ & _ & Hcap).
+      apply (pseudo_legal_intro g _ _ None self); try assumption.
+      apply officer_rule; [exact Hnp | reflexivity | exact Hatt].
+Qed.
+
+(* every generated move is pseudo-legal under the rules; only the rule part of the invariant is used *)
+Theorem gen_sound_rule : forall g m,
+  RuleInv g -> In m (pseudo_moves_all g) -> pseudo_legal (abs g) (abs_move m) = true.
+Proof.
+  intros g m HR Hin. apply pseudo_all_inv in Hin. destruct Hin as (p & self & Hsrc & Hin).
+  now apply (piece_moves_sound g self p m).
+Qed.
+Print Assumptions gen_sound_rule.
+
+Theorem gen_sound_all : forall g m,
+  RepInv g -> In m (pseudo_moves_all g) -> pseudo_legal (abs g) (abs_move m) = true.
+Proof. intros g m [_ HR]. now apply gen_sound_rule. Qed.
+Print Assumptions gen_sound_all.
+
+(* the statement as asked; the premises on the kings turn out not to be needed *)
+Theorem gen_sound : forall g m,
+  RepInv g -> KingsInv g -> king_exists g (g_player g) = true ->
+  In m (pseudo_moves_all g) -> pseudo_legal (abs g) (abs_move m) = true.
+Proof. intros g m HR _ _. now apply gen_sound_all. Qed.
+Print Assumptions gen_sound.
+
+Theorem gen_sound_pseudo : forall g m,
+  RepInv g -> In m (pseudo_moves g) -> pseudo_legal (abs g) (abs_move m) = true.
+Proof. intros g m HR H. apply gen_sound_all; [assumption | now apply pseudo_in_all]. Qed.
+Print Assumptions gen_sound_pseudo.
+
+Theorem gen_sound_checked : forall g m,
+  RepInv g -> In m (checked_moves g) -> pseudo_legal (abs g) (abs_move m) = true.
+Proof. intros g m HR H. apply gen_sound_all; [assumption | now apply checked_in_all]. Qed.
+Print Assumptions gen_sound_checked.
+
+Theorem gen_sound_get_moves : forall g v m,
+  RepInv g -> In m (get_moves g v) -> pseudo_legal (abs g) (abs_move m) = true.
+Proof.
+  intros g v m HR. unfold get_moves. destruct v; [now apply gen_sound_checked | now apply gen_sound_pseudo].
+Qed.
+Print Assumptions gen_sound_get_moves.
+
+(* the capture theorems for the two public move lists *)
+Corollary capture_targets_pseudo : forall g m s e c,
+  RepInv g -> In m (pseudo_moves g) -> captures_on m s e c ->
+  board_targeted (g_board g) e (po c) = true.
+Proof. intros g m s e c HR H. apply capture_targets_gen; [assumption | now apply pseudo_in_all]. Qed.
+
+Corollary capture_targets_checked : forall g m s e c,
+  RepInv g -> In m (checked_moves g) -> captures_on m s e c ->
+  board_targeted (g_board g) e (po c) = true.
+Proof. intros g m s e c HR H. apply capture_targets_gen; [assumption | now apply checked_in_all]. Qed.
+Print Assumptions capture_targets_checked.
+
+(* the downstream form: a generated move that captures a king captures it on the cached king square
+   of the side not to move, and that square is attacked in the engine's own test; so a side whose
+   king square is not attacked cannot have its king captured *)
+Theorem king_capture_targeted : forall g m s e c,
+  RepInv g -> In m (pseudo_moves_all g) -> captures_on m s e c -> pk c = King ->
+  po c = other (g_player g) /\ e = king_pos g (po c)
+  /\ is_targeted g (king_pos g (po c)) (po c) = true.
+Proof.
+  intros g m s e c HR Hin Hcap Hk.
+  pose proof (capture_targets_gen g m s e c HR Hin Hcap) as Ht.
+  pose proof (gen_ok_all g m HR Hin) as Hok.
+  destruct (gen_attacks g m s e c Hin Hcap) as (_ & Hve & Hge & _ & _).
+  assert (Hc : po c <> g_player g).
+  { destruct Hcap as [(pc' & ->) | (o & k & ->)]; cbn [gen_ok] in Hok.
+    - destruct Hok as (_ & _ & _ & _ & _ & _ & H). now apply H.
+    - destruct Hok as (-> & _ & _ & _ & _ & _ & _ & _ & H). now apply H. }
+  destruct HR as [_ HR].
+  assert (Hkp : king_pos g (po c) = e).
+  { apply (ri_kings g HR e (po c) Hve). unfold gget in Hge. rewrite Hge.
+    destruct c as [k o]. cbn [pk po] in *. now subst k. }
+  split; [revert Hc; destruct (po c), (g_player g); cbn; congruence|].
+  split; [now symmetry|]. unfold is_targeted. now rewrite Hkp.
+Qed.
+Print Assumptions king_capture_targeted.
+
+Corollary king_not_capturable : forall g m s e c,
+  RepInv g -> In m (pseudo_moves_all g) -> captures_on m s e c -> pk c = King ->
+  is_targeted g (king_pos g (po c)) (po c) = false -> False.
+Proof.
+  intros g m s e c HR Hin Hcap Hk Hf.
+  destruct (king_capture_targeted g m s e c HR Hin Hcap Hk) as (_ & _ & Ht). congruence.
+Qed.
+
+(* non-vacuity: the premises hold and the conclusion is checked by computation on two positions *)
+Example gen_sound_start_kiwipete :
+  forallb (fun m => pseudo_legal (abs START) (abs_move m)) (pseudo_moves_all START) = true
+  /\ forallb (fun m => pseudo_legal (abs KIWIPETE) (abs_move m)) (pseudo_moves_all KIWIPETE) = true
+  /\ length (pseudo_moves_all START) = 20%nat /\ length (pseudo_moves_all KIWIPETE) = 48%nat.
+Proof. vm_compute. repeat split; reflexivity. Qed.
